@@ -61,7 +61,12 @@ def _jaqal_import_module_relative(mod_name, import_path):
     spec = _jaqal_find_spec_relative(top_level, import_path)
     module = importlib.util.module_from_spec(spec)
     sys.modules[mod_name] = module
-    spec.loader.exec_module(module)
+    try:
+        spec.loader.exec_module(module)
+    except BaseException:
+        # Like importlib: a module whose execution failed must not stay importable
+        sys.modules.pop(mod_name, None)
+        raise
 
     return module
 
